@@ -158,9 +158,8 @@ def contexts(w):
         out.append(('mem-in-op', lambda d: ('op', '+', (('mem', d, 32), a))))
     if w in (8, 16, 32):
         out.append(('compose', lambda d: ('compose', ((d, 0, w), (('int', w, 0), w, 2 * w)))))
-    if w == 16:
-        # a computed segment selector
-        out.append(('selector', lambda d: ('smem', d, ('id', 'p32', 32), 32)))
+    # a computed segment selector (any expression may stand there)
+    out.append(('selector', lambda d: ('smem', d, ('id', 'p32', 32), 32)))
     return out
 
 def dwidth_x(d):
